@@ -67,6 +67,21 @@ CLAIMED = {
              "StreamReader / async_timeout abstracted as in-order frame consumption and deadline-triggered done flags.",
         technique="Lean 4 invariant proofs over an executable state machine + differential correspondence check on the real connection object",
     ),
+    "C15": dict(
+        category="other",
+        text="PARTIAL. The sticky assignor's algorithm is not (yet) modelled in Lean, so no theorem quantifies over all "
+             "inputs. What is machine-checked: the three stickiness clauses as Lean functions over two consecutive "
+             "assignments with soundness lemmas (a true verdict means: owners unchanged / a survivor's partition stays with "
+             "it / a partition owned by an old member was already its own), and the round trip of the real user-data "
+             "struct (instance of C11's generic theorem over the regenerated schema). The check evaluates those Lean "
+             "statements on the real assignor for first rounds from the property's bounded space (slice in quick, all in "
+             "thorough) followed by identical / minus-subset / plus-members second rounds, and random 5-round chains, with "
+             "previous assignments carried through the real encoding; non-termination and exceptions are findings.",
+        design="3/C15",
+        note="trusted: Lean kernel for the statement soundness lemmas; everything about the algorithm itself is only "
+             "explored, not proved. Stub ClusterMetadata; zero-padded names.",
+        technique="Lean-defined statements (soundness proved) evaluated on the real assignor over a bounded exhaustive + random space",
+    ),
 }
 
 NOT_YET = {}
@@ -86,7 +101,7 @@ def main():
                 "evidence_file": f"evidence/{pid}.json",
                 "replay_cmd_template": f"bin/check {pid} --replay {{path}}",
                 "engine": "akverif-lean",
-                "level_claimed": {"category": "proof", "text": c["text"], "design_ref": c["design"]},
+                "level_claimed": {"category": c.get("category", "proof"), "text": c["text"], "design_ref": c["design"]},
                 "level_note": c["note"],
                 "technique": c["technique"],
             })
